@@ -1,5 +1,5 @@
 /-
-  Driver/Graph.lean — execution-graph cases (C19, and the F4 part of C03).
+  Driver/Graph.lean — execution-graph cases (C19, and the forward-link part of C03).
   header: `<id> graph local <n>` | `<id> graph remote`
   ops: see harness/src/bin/graph.rs (a program of `Stream` API calls + `host` lines).
   outputs: `isect <R>`, `lost <n>`, then per host `H <h>` followed by
@@ -158,7 +158,8 @@ def noDup {α : Type} [BEq α] : List α → Bool
   | a :: l => !l.contains a && noDup l
 
 structure Fail where
-  f4 : Bool
+  /-- a forward producer replica without any consumer (the shape of the former finding F4) -/
+  orphan : Bool
   msg : String
 
 def checkDump (cfg : Config) (job : Job) (d : IDump) : List Fail := Id.run do
@@ -204,8 +205,7 @@ def checkDump (cfg : Config) (job : Job) (d : IDump) : List Fail := Id.run do
       if forward then
         let partner := cs.filter fun c => c.host == p.host && c.replica == p.replica
         if got.length ≠ 1 then
-          let isF4 := got.isEmpty && cs.length > 1
-          fails := fails ++ [⟨isF4, s!"forward edge {e.src}->{e.dst}: producer {coordStr p} has {got.length} consumers (consumer block has {cs.length} replicas, producer block {ps.length})"⟩]
+          fails := fails ++ [⟨got.isEmpty && cs.length > 1, s!"forward edge {e.src}->{e.dst}: producer {coordStr p} has {got.length} consumers (consumer block has {cs.length} replicas, producer block {ps.length})"⟩]
         else if !partner.isEmpty && got != partner then
           fails := fails ++ [other s!"forward edge {e.src}->{e.dst}: producer {coordStr p} is not linked to its same-index consumer"]
         else if !got.all cs.contains then
@@ -282,8 +282,7 @@ def handle (c : Case) : Verdict := Id.run do
   for l in implPre do
     match words l with
     | ["lost", n] => if n != "0" then
-        -- attributed to F4 only if the graph of this very job has the F4 shape
-        fails := fails ++ [⟨true, s!"{n} elements of a finite job were lost"⟩]
+        fails := fails ++ [⟨false, s!"{n} elements of a finite job were lost"⟩]
     | _ => pure ()
   unless secs.length == nh && (secs.map (·.1)) == List.range nh do
     fails := fails ++ [⟨false, s!"dumps for hosts {secs.map (·.1)}, expected {nh} hosts"⟩]
@@ -296,33 +295,23 @@ def handle (c : Case) : Verdict := Id.run do
     | none => fails := fails ++ [⟨false, "unparsable dump"⟩]
     | some d => fails := fails ++ checkDump cfg job d
   | [] => pure ()
-  -- lost elements are explained by F4 only if the executed job has the F4 shape
-  -- (`Unlimited` on `cores` cores forwarded to `Limited(k)` with 1 < k < cores)
-  let lostShape := c.ops.any fun w =>
-    match w with
-    | ["lost", cores, _, k] =>
-      match cores.toNat?, k.toNat? with
-      | some cores, some k => 1 < k && k < cores
-      | _, _ => false
-    | _ => false
-  fails := fails.map fun f => if f.msg.endsWith "were lost" && !lostShape then ⟨false, f.msg⟩ else f
   let oracle :=
     match fails with
     | [] => none
-    | f :: _ =>
-      let n := fails.length
-      if fails.all (·.f4) then some s!"known:F4-forward-link-without-consumer {f.msg} ({n} failures)"
-      else
-        let g := (fails.find? (!·.f4)).getD f
-        some s!"{g.msg} ({n} failures)"
+    | f :: _ => some s!"{f.msg} ({fails.length} failures)"
   let malformed := !wellFormed dump job.edges
+  let usesFallback := job.edges.any fun e =>
+    match findInfo dump.blocks e.src, findInfo dump.blocks e.dst with
+    | some f, some t => f.replicas.any fun p => orphan f.onlyOne e.fragile t.replicas p
+    | _, _ => false
   let hasForward := job.edges.any fun e => e.fragile || (job.blocks.find? (·.id == e.src)).any (·.onlyOne)
   let tags := [match cfg with | .loc _ => "local" | .remote hs => s!"remote{hs.length}",
                s!"blocks{min job.blocks.length 6}"] ++
     (if hasForward then ["forward"] else []) ++
     (if job.edges.any (·.fragile) then ["fragile"] else []) ++
     (if malformed then ["malformed"] else []) ++
-    (if fails.any (·.f4) then ["f4"] else [])
+    (if usesFallback then ["fallback"] else []) ++
+    (if fails.any (·.orphan) then ["orphan-producer"] else [])
   return { out, oracle, nontrivial := job.blocks.length ≥ 2 && !job.edges.isEmpty, tags }
 
 end Noir.Driver.Graph
